@@ -255,6 +255,11 @@ func (c *Ctx) Eq(a, b *Term) *Term {
 	if b.IsConst() && a.Op == OpIte && (a.Args[1].IsConst() || a.Args[2].IsConst()) {
 		return c.Ite(a.Args[0], c.Eq(a.Args[1], b), c.Eq(a.Args[2], b))
 	}
+	// equality of a concatenation with a constant splits into its parts
+	if b.IsConst() && a.Op == OpConcat {
+		lw := a.Args[1].W
+		return c.And(c.Eq(a.Args[0], c.BV(a.Args[0].W, b.Val>>uint(lw))), c.Eq(a.Args[1], c.BV(lw, b.Val&mask(lw))))
+	}
 	if b.IsConst() && a.Op == OpZExt {
 		iw := a.Args[0].W
 		if b.Val&^mask(iw) != 0 {
